@@ -40,6 +40,24 @@ def register(R):
         "request_time": a.request.departure_time})
     s.report_props = ("C19", "C03")
     s.no_raise(("C19", "C03"))
+    # C19: the reported waiting time lies between zero and the cancellation timeout plus one step.
+    # An admitted request has departure_time < sim_time (it enters in the first step that begins after its departure) and
+    # is cancelled in the first step with sim_time >= departure + timeout, so while it can be picked up
+    # 0 < sim_time - departure < timeout.
+    W = "nrel/hive/reporting/vehicle_event_ops.py::report_pickup_request#wait"
+    s2_ = R.spec(W, ret=None)
+    T = fresh(IntT, "cancel_timeout")
+    s2_.arg_types = {}
+    s2_.requires("admitted_not_yet_cancelled", lambda a: And(
+        a.request.departure_time >= 0, a.request.departure_time < a.next_sim.sim_time,
+        a.next_sim.sim_time - a.request.departure_time < T, a.next_sim.sim_timestep_duration_seconds > 0,
+        T + a.next_sim.sim_timestep_duration_seconds < 86400))
+    s2_.report("PICKUP_REQUEST_EVENT", lambda a: {})
+    s2_.report_props = ("C19",)
+    s2_.report_clauses = [("waiting_time_between_zero_and_timeout_plus_step",
+                           lambda a, f: And(f["wait_time_seconds"] >= 0,
+                                            f["wait_time_seconds"] <= T + a.next_sim.sim_timestep_duration_seconds,
+                                            f["pickup_time"] >= a.request.departure_time), ("C19",))]
 
     s = R.spec(VEO + "report_dropoff_request")
     s.opaque = True
